@@ -55,14 +55,39 @@ var pathTargets = []target{
 
 var fset = token.NewFileSet()
 
+// an unrecognised shape: the extraction of the current target is abandoned (it fails closed)
+type failure struct{ msg string }
+
 func fail(n ast.Node, format string, args ...any) {
 	pos := ""
 	if n != nil {
 		pos = fset.Position(n.Pos()).String() + ": "
 	}
 
-	fmt.Fprintf(os.Stderr, "cachekey: %s%s\n", pos, fmt.Sprintf(format, args...))
-	os.Exit(3)
+	panic(failure{pos + fmt.Sprintf(format, args...)})
+}
+
+var failures []string
+
+// runs f; if it meets a shape it does not understand the failure is recorded and ok is false
+func guarded(f func()) (ok bool) {
+	defer func() {
+		if r := recover(); r != nil {
+			fl, isFailure := r.(failure)
+			if !isFailure {
+				panic(r)
+			}
+
+			failures = append(failures, fl.msg)
+			fmt.Fprintf(os.Stderr, "cachekey: %s\n", fl.msg)
+
+			ok = false
+		}
+	}()
+
+	f()
+
+	return true
 }
 
 func src(x ast.Node) string {
@@ -72,6 +97,105 @@ func src(x ast.Node) string {
 	}
 
 	return strings.Join(strings.Fields(buf.String()), " ")
+}
+
+// normaliser rewrites identifiers into a form that does not depend on how the programmer named things: the receiver
+// becomes `recv`, the i-th parameter `arg<i>`, a local variable the (normalised) expression it was defined by, the
+// parameter of a function literal `_`.
+type normaliser struct {
+	names map[string]string
+}
+
+func newNormaliser(fd *ast.FuncDecl) *normaliser {
+	n := &normaliser{names: map[string]string{}}
+
+	if fd.Recv != nil && len(fd.Recv.List) == 1 && len(fd.Recv.List[0].Names) == 1 {
+		n.names[fd.Recv.List[0].Names[0].Name] = "recv"
+	}
+
+	idx := 0
+
+	if fd.Type.Params != nil {
+		for _, f := range fd.Type.Params.List {
+			if len(f.Names) == 0 {
+				idx++
+
+				continue
+			}
+
+			for _, name := range f.Names {
+				n.names[name.Name] = "arg" + strconv.Itoa(idx)
+				idx++
+			}
+		}
+	}
+
+	return n
+}
+
+func (n *normaliser) define(name, value string) {
+	if strings.ContainsAny(value, " +-*/<>=&|!") && !strings.HasSuffix(value, ")") {
+		value = "(" + value + ")"
+	}
+
+	n.names[name] = value
+}
+
+// the source text of x with identifiers normalised (x is rewritten in place)
+func (n *normaliser) text(x ast.Node) string {
+	fields := map[*ast.Ident]bool{}
+
+	var walk func(node ast.Node, shadow map[string]bool)
+
+	walk = func(node ast.Node, shadow map[string]bool) {
+		ast.Inspect(node, func(c ast.Node) bool {
+			switch v := c.(type) {
+			case *ast.SelectorExpr:
+				fields[v.Sel] = true
+			case *ast.KeyValueExpr:
+				if id, ok := v.Key.(*ast.Ident); ok {
+					fields[id] = true
+				}
+			case *ast.FuncLit:
+				inner := map[string]bool{}
+				for k := range shadow {
+					inner[k] = true
+				}
+
+				if v.Type.Params != nil {
+					for _, f := range v.Type.Params.List {
+						for _, name := range f.Names {
+							inner[name.Name] = true
+							name.Name = "_"
+						}
+					}
+				}
+
+				walk(v.Body, inner)
+
+				return false
+			case *ast.Ident:
+				if fields[v] {
+					return true
+				}
+
+				if shadow[v.Name] {
+					v.Name = "_"
+
+					return true
+				}
+
+				if to, ok := n.names[v.Name]; ok {
+					v.Name = to
+				}
+			}
+
+			return true
+		})
+	}
+	walk(x, map[string]bool{})
+
+	return src(x)
 }
 
 func leanStr(s string) string {
@@ -126,6 +250,7 @@ func findFunc(f *ast.File, recv, name string) *ast.FuncDecl {
 // key functions
 
 type keyExtractor struct {
+	n        *normaliser
 	hashVars map[string]bool   // variables holding a sha256 hash
 	bufVars  map[string]string // bytes.Buffer variables -> field written into them (Lean term), "" while empty
 	defs     map[string]string // local variable -> label of the value it holds
@@ -169,7 +294,7 @@ func isHashCall(x ast.Expr) bool {
 }
 
 // optional digest: x.IfThenElseExec(v != nil, func() []byte { return v.Hash() }, func() []byte { return []byte{} })
-func optionalHash(x ast.Expr) (string, bool) {
+func (e *keyExtractor) optionalHash(x ast.Expr) (string, bool) {
 	c, ok := isCall(x, "x", "IfThenElseExec")
 	if !ok || len(c.Args) != 3 {
 		return "", false
@@ -195,7 +320,7 @@ func optionalHash(x ast.Expr) (string, bool) {
 		return "", false
 	}
 
-	return src(ret.Results[0]) + " if " + src(c.Args[0]), true
+	return e.n.text(ret.Results[0]) + " if " + e.n.text(c.Args[0]), true
 }
 
 // the value written by h.Write(arg), as a Lean Field term
@@ -210,7 +335,7 @@ func (e *keyExtractor) rawWrite(arg ast.Expr) string {
 
 			sep, _ := strconv.Unquote(lit.Value)
 
-			return ".joined " + leanBytes(sep) + " " + leanStr(src(j.Args[0]))
+			return ".joined " + leanBytes(sep) + " " + leanStr(e.n.text(j.Args[0]))
 		}
 
 		if lit, ok := inner.(*ast.BasicLit); ok && lit.Kind == token.STRING {
@@ -223,14 +348,14 @@ func (e *keyExtractor) rawWrite(arg ast.Expr) string {
 			}
 		}
 
-		return ".raw " + leanStr(src(inner))
+		return ".raw " + leanStr(e.n.text(inner))
 	}
 
 	if isHashCall(arg) {
-		return ".fixed 32 " + leanStr(src(arg))
+		return ".fixed 32 " + leanStr(e.n.text(arg))
 	}
 
-	if lbl, ok := optionalHash(arg); ok {
+	if lbl, ok := e.optionalHash(arg); ok {
 		return ".opt " + leanStr(lbl) + " (.fixed 32 " + leanStr(lbl) + ")"
 	}
 
@@ -272,7 +397,7 @@ func mustUnquote(l *ast.BasicLit) string {
 
 // label of a value handed to hashx.WriteString / hashx.WriteBytes
 func (e *keyExtractor) label(arg ast.Expr) string {
-	if lbl, ok := optionalHash(arg); ok {
+	if lbl, ok := e.optionalHash(arg); ok {
 		return lbl
 	}
 
@@ -286,7 +411,7 @@ func (e *keyExtractor) label(arg ast.Expr) string {
 		}
 	}
 
-	return src(arg)
+	return e.n.text(arg)
 }
 
 func (e *keyExtractor) hashArg(c *ast.CallExpr) bool {
@@ -327,11 +452,16 @@ func (e *keyExtractor) writeOf(call *ast.CallExpr, sink map[string]bool) (string
 	if id, ok := sel.X.(*ast.Ident); ok && id.Name == "hashx" && e.hashArg(call) {
 		switch sel.Sel.Name {
 		case "WriteString", "WriteBytes":
+			if lit, ok := call.Args[1].(*ast.BasicLit); ok && lit.Kind == token.STRING {
+				// a constant: the domain tag of the key function
+				return ".tag " + leanBytes(mustUnquote(lit)), true
+			}
+
 			return ".lp " + leanStr(e.label(call.Args[1])), true
 		case "WriteStrings":
-			return ".lpList " + leanStr(src(call.Args[1])), true
+			return ".lpList " + leanStr(e.n.text(call.Args[1])), true
 		case "WriteStringMap":
-			return ".lpMap " + leanStr(src(call.Args[1])), true
+			return ".lpMap " + leanStr(e.n.text(call.Args[1])), true
 		case "WriteStringsFunc":
 			fl, ok := call.Args[2].(*ast.FuncLit)
 			if !ok || len(fl.Body.List) != 1 {
@@ -343,7 +473,9 @@ func (e *keyExtractor) writeOf(call *ast.CallExpr, sink map[string]bool) (string
 				fail(call, "WriteStringsFunc with an unrecognised function")
 			}
 
-			return ".lpList " + leanStr(src(ret.Results[0])+" for "+src(call.Args[1])), true
+			e.n.text(fl)
+
+			return ".lpList " + leanStr(src(ret.Results[0])+" for "+e.n.text(call.Args[1])), true
 		default:
 			fail(call, "unknown hashx function %s", sel.Sel.Name)
 		}
@@ -388,14 +520,16 @@ func (e *keyExtractor) assign(lhs []ast.Expr, rhs []ast.Expr, conditional bool) 
 		e.bufVars[id.Name] = ""
 	default:
 		if c, ok := isCall(rhs[0], "json", "Marshal"); ok && len(c.Args) == 1 {
-			e.defs[id.Name] = "json.Marshal(" + src(c.Args[0]) + ")"
+			e.defs[id.Name] = "json.Marshal(" + e.n.text(c.Args[0]) + ")"
+			e.n.define(id.Name, e.defs[id.Name])
 		} else if c, ok := rhs[0].(*ast.CallExpr); ok && src(c.Fun) == "make" {
 			// byte buffer, filled later
 			if conditional {
 				e.optional[id.Name] = true
 			}
 		} else {
-			e.defs[id.Name] = src(rhs[0])
+			e.defs[id.Name] = e.n.text(rhs[0])
+			e.n.define(id.Name, e.defs[id.Name])
 		}
 	}
 }
@@ -456,7 +590,7 @@ func (e *keyExtractor) stmt(s ast.Stmt) {
 				}
 
 				e.u64[id.Name] = true
-				e.defs[id.Name] = src(val)
+				e.defs[id.Name] = e.n.text(val)
 			}
 
 			return
@@ -497,7 +631,7 @@ func (e *keyExtractor) stmt(s ast.Stmt) {
 			fail(v, "conditional write with else/init")
 		}
 
-		cond := src(v.Cond)
+		cond := e.n.text(v.Cond)
 		before := len(e.fields)
 		e.stmts(v.Body.List)
 
@@ -600,9 +734,9 @@ func (e *keyExtractor) rangeStmt(v *ast.RangeStmt, sinks map[string]bool) {
 
 	switch {
 	case len(written) == 2 && written[0] == keyName && written[1] == valName && keyName != "_":
-		field = ".mapRaw " + leanStr(src(v.X))
+		field = ".mapRaw " + leanStr(e.n.text(v.X))
 	case len(written) == 1 && written[0] == valName && (keyName == "_" || keyName == ""):
-		field = ".joined [] " + leanStr(src(v.X))
+		field = ".joined [] " + leanStr(e.n.text(v.X))
 	default:
 		fail(v, "unrecognised loop writing into the hash")
 	}
@@ -632,6 +766,7 @@ func extractKey(root string, t target) []string {
 	}
 
 	e := &keyExtractor{
+		n:        newNormaliser(fd),
 		hashVars: map[string]bool{}, bufVars: map[string]string{}, defs: map[string]string{},
 		u64: map[string]bool{}, optional: map[string]bool{},
 	}
@@ -688,6 +823,10 @@ type pathWalker struct {
 	p    *pathExtractor
 	mark bool
 	res  []string
+	// guard mode (miss path): a call inside a branch whose condition reads the receiver (the configuration of the
+	// mechanism instance, which a rule may override) is reported as `name?<conditions>`
+	norm   *normaliser
+	guards []string
 }
 
 func (w *pathWalker) add(name string, cond bool) {
@@ -695,7 +834,25 @@ func (w *pathWalker) add(name string, cond bool) {
 		name = "?" + name
 	}
 
+	if w.norm != nil && len(w.guards) != 0 && name != "Set" {
+		name += "?" + strings.Join(w.guards, " && ")
+	}
+
 	w.res = append(w.res, name)
+}
+
+// the normalised condition if it reads the receiver, "" otherwise
+func (w *pathWalker) guard(cond ast.Expr) string {
+	if w.norm == nil || cond == nil || isErrCond(cond) {
+		return ""
+	}
+
+	text := w.norm.text(cond)
+	if !strings.Contains(text, "recv.") {
+		return ""
+	}
+
+	return text
 }
 
 // err == nil, err != nil, errors.Is(err, ..), errors.As(err, ..) and their combinations
@@ -739,6 +896,15 @@ func exits(n ast.Node) bool {
 		switch v := x.(type) {
 		case *ast.FuncLit:
 			return false
+		case *ast.IfStmt:
+			// leaving because of an error is not leaving because of the guard
+			if isErrCond(v.Cond) {
+				if v.Else != nil && exits(v.Else) {
+					found = true
+				}
+
+				return false
+			}
 		case *ast.ReturnStmt:
 			found = true
 		case *ast.BranchStmt:
@@ -780,7 +946,13 @@ func (w *pathWalker) expr(n ast.Node, self string, depth int, cond bool) {
 
 				if id, ok := f.X.(*ast.Ident); ok && id.Name == self && depth < 3 {
 					if fd := findFunc(w.p.file, w.p.recv, f.Sel.Name); fd != nil {
+						outer := w.norm
+						if outer != nil {
+							w.norm = newNormaliser(fd)
+						}
+
 						w.stmts(fd.Body.List, w.p.recvName(fd), depth+1, cond)
+						w.norm = outer
 					}
 				}
 			case *ast.Ident:
@@ -794,6 +966,10 @@ func (w *pathWalker) expr(n ast.Node, self string, depth int, cond bool) {
 
 // returns whether what follows the list is only reached conditionally
 func (w *pathWalker) stmts(list []ast.Stmt, self string, depth int, cond bool) bool {
+	scope := len(w.guards)
+
+	defer func() { w.guards = w.guards[:scope] }()
+
 	for _, s := range list {
 		switch v := s.(type) {
 		case *ast.BlockStmt:
@@ -808,17 +984,36 @@ func (w *pathWalker) stmts(list []ast.Stmt, self string, depth int, cond bool) b
 			w.expr(v.Cond, self, depth, cond)
 
 			inner := cond || !isErrCond(v.Cond)
+			guardedExit := !isErrCond(v.Cond) && exits(v.Body)
+			elseExit := v.Else != nil && !isErrCond(v.Cond) && exits(v.Else)
+			g := w.guard(v.Cond)
+
+			if g != "" {
+				w.guards = append(w.guards, g)
+			}
+
 			w.stmts(v.Body.List, self, depth, inner)
 
-			guardedExit := !isErrCond(v.Cond) && exits(v.Body)
+			if g != "" {
+				w.guards[len(w.guards)-1] = "!(" + g + ")"
+			}
 
 			if v.Else != nil {
 				w.stmts([]ast.Stmt{v.Else}, self, depth, inner)
-
-				guardedExit = guardedExit || (!isErrCond(v.Cond) && exits(v.Else))
 			}
 
-			cond = cond || guardedExit
+			if g != "" {
+				w.guards = w.guards[:len(w.guards)-1]
+
+				// what follows a guarded exit is reached only if the guard did not fire
+				if guardedExit {
+					w.guards = append(w.guards, "!("+g+")")
+				} else if elseExit {
+					w.guards = append(w.guards, g)
+				}
+			}
+
+			cond = cond || guardedExit || elseExit
 		case *ast.ForStmt:
 			if v.Init != nil {
 				w.stmts([]ast.Stmt{v.Init}, self, depth, cond)
@@ -862,15 +1057,139 @@ func (w *pathWalker) stmts(list []ast.Stmt, self string, depth int, cond bool) b
 	return cond
 }
 
-func isCacheGet(s *ast.IfStmt) bool {
-	as, ok := s.Init.(*ast.AssignStmt)
-	if !ok || len(as.Rhs) != 1 {
+// variables holding the cache of the request context: x := cache.Ctx(..)
+func cacheVars(body ast.Node) map[string]bool {
+	vars := map[string]bool{}
+
+	ast.Inspect(body, func(x ast.Node) bool {
+		as, ok := x.(*ast.AssignStmt)
+		if !ok || len(as.Lhs) != 1 || len(as.Rhs) != 1 {
+			return true
+		}
+
+		if _, ok := isCall(as.Rhs[0], "cache", "Ctx"); ok {
+			if id, ok := as.Lhs[0].(*ast.Ident); ok {
+				vars[id.Name] = true
+			}
+		}
+
+		return true
+	})
+
+	return vars
+}
+
+// is x a call of method `name` on the cache of the request context
+func isCacheCall(x ast.Expr, name string, vars map[string]bool) bool {
+	c, ok := x.(*ast.CallExpr)
+	if !ok {
 		return false
 	}
 
-	c, ok := isCall(as.Rhs[0], "cch", "Get")
+	sel, ok := c.Fun.(*ast.SelectorExpr)
+	if !ok || sel.Sel.Name != name {
+		return false
+	}
 
-	return ok && c != nil
+	if id, ok := sel.X.(*ast.Ident); ok {
+		return vars[id.Name]
+	}
+
+	_, ok = isCall(sel.X, "cache", "Ctx")
+
+	return ok
+}
+
+// if v, e := <cache>.Get(..); e == nil { .. }
+func isCacheGet(s *ast.IfStmt, vars map[string]bool) bool {
+	as, ok := s.Init.(*ast.AssignStmt)
+	if !ok || len(as.Rhs) != 1 || len(as.Lhs) != 2 || !isCacheCall(as.Rhs[0], "Get", vars) {
+		return false
+	}
+
+	errVar, ok := as.Lhs[1].(*ast.Ident)
+	if !ok {
+		return false
+	}
+
+	cond, ok := s.Cond.(*ast.BinaryExpr)
+	if !ok || cond.Op != token.EQL {
+		return false
+	}
+
+	x, xok := cond.X.(*ast.Ident)
+	y, yok := cond.Y.(*ast.Ident)
+
+	return xok && yok && x.Name == errVar.Name && y.Name == "nil"
+}
+
+// every function under internal/ that looks something up in, or stores something to the cache of the request context
+func cacheSites(root string) []string {
+	var sites []string
+
+	err := filepath.Walk(filepath.Join(root, "internal"), func(path string, info os.FileInfo, err error) error {
+		if err != nil {
+			return err
+		}
+
+		rel, _ := filepath.Rel(root, path)
+		if info.IsDir() {
+			if strings.HasPrefix(rel, "internal/cache") || strings.HasPrefix(rel, "internal/zzverif") || info.Name() == "mocks" {
+				return filepath.SkipDir
+			}
+
+			return nil
+		}
+
+		if !strings.HasSuffix(path, ".go") || strings.HasSuffix(path, "_test.go") || strings.HasPrefix(info.Name(), "zz_verif_") {
+			return nil
+		}
+
+		f, perr := parser.ParseFile(fset, path, nil, 0)
+		if perr != nil {
+			return perr
+		}
+
+		for _, d := range f.Decls {
+			fd, ok := d.(*ast.FuncDecl)
+			if !ok || fd.Body == nil {
+				continue
+			}
+
+			vars := cacheVars(fd.Body)
+			uses := false
+
+			ast.Inspect(fd.Body, func(x ast.Node) bool {
+				if e, ok := x.(ast.Expr); ok && (isCacheCall(e, "Get", vars) || isCacheCall(e, "Set", vars)) {
+					uses = true
+				}
+
+				return !uses
+			})
+
+			if uses {
+				recv := ""
+
+				if fd.Recv != nil && len(fd.Recv.List) == 1 {
+					t := fd.Recv.List[0].Type
+					if st, ok := t.(*ast.StarExpr); ok {
+						t = st.X
+					}
+
+					recv = src(t)
+				}
+
+				sites = append(sites, rel+":"+recv+"."+fd.Name.Name)
+			}
+		}
+
+		return nil
+	})
+	if err != nil {
+		fail(nil, "%v", err)
+	}
+
+	return sites
 }
 
 func extractPaths(root string, t target) (hit, miss []string, returns bool) {
@@ -889,8 +1208,10 @@ func extractPaths(root string, t target) (hit, miss []string, returns bool) {
 
 	var hitBlock *ast.IfStmt
 
+	vars := cacheVars(fd.Body)
+
 	ast.Inspect(fd.Body, func(x ast.Node) bool {
-		if is, ok := x.(*ast.IfStmt); ok && isCacheGet(is) {
+		if is, ok := x.(*ast.IfStmt); ok && isCacheGet(is, vars) {
 			if hitBlock != nil {
 				fail(is, "two cache lookups in %s.%s", t.recv, t.fn)
 			}
@@ -902,10 +1223,10 @@ func extractPaths(root string, t target) (hit, miss []string, returns bool) {
 	})
 
 	if hitBlock == nil {
-		fail(fd, "no `if entry, err := cch.Get(...); err == nil` in %s.%s", t.recv, t.fn)
+		fail(fd, "no `if entry, err := <cache>.Get(...); err == nil` in %s.%s", t.recv, t.fn)
 	}
 
-	if src(hitBlock.Cond) != "err == nil" || hitBlock.Else != nil {
+	if hitBlock.Else != nil {
 		fail(hitBlock, "unrecognised shape of the cache lookup")
 	}
 
@@ -923,13 +1244,15 @@ func extractPaths(root string, t target) (hit, miss []string, returns bool) {
 
 	// everything after the lookup, in source order
 	after := false
+	mw := &pathWalker{p: p, norm: newNormaliser(fd)}
 
 	var walk func(list []ast.Stmt)
 
 	walk = func(list []ast.Stmt) {
 		for _, s := range list {
 			if after {
-				miss = append(miss, p.calls(s, self, 0)...)
+				mw.stmts([]ast.Stmt{s}, self, 0, false)
+				miss = mw.res
 
 				continue
 			}
@@ -982,7 +1305,12 @@ func leanList(items []string) string {
 	q := make([]string, 0, len(items))
 
 	for _, s := range items {
-		if relevant[strings.TrimPrefix(s, "?")] {
+		name := strings.TrimPrefix(s, "?")
+		if i := strings.Index(name, "?"); i >= 0 {
+			name = name[:i]
+		}
+
+		if relevant[name] {
 			q = append(q, leanStr(s))
 		}
 	}
@@ -1000,7 +1328,13 @@ func main() {
 	out.WriteString("import HeimdallModel.Model.CacheKey\nnamespace Heimdall.Gen.CacheKeys\nopen Heimdall.CacheKey\n\n")
 
 	for _, t := range keyTargets {
-		fields := extractKey(*root, t)
+		var fields []string
+
+		if !guarded(func() { fields = extractKey(*root, t) }) {
+			// a list no obligation accepts: neither delimited, nor ordered, nor covering anything
+			fields = []string{".mapRaw " + leanStr("not understood: "+failures[len(failures)-1]), ".mapRaw \"\""}
+		}
+
 		fmt.Fprintf(&out, "/-- %s: %s.%s -/\ndef %s : List Field := [\n  %s]\n\n", t.file, t.recv, t.fn, t.name,
 			strings.Join(fields, ",\n  "))
 	}
@@ -1027,7 +1361,15 @@ func main() {
 	var paths []pathRes
 
 	for _, t := range pathTargets {
-		hit, miss, returns := extractPaths(*root, t)
+		var (
+			hit, miss []string
+			returns   bool
+		)
+
+		if !guarded(func() { hit, miss, returns = extractPaths(*root, t) }) {
+			hit, miss = []string{"?not understood"}, []string{"Set"}
+		}
+
 		paths = append(paths, pathRes{t.name, hit, miss, returns})
 	}
 
@@ -1055,6 +1397,41 @@ func main() {
 		fmt.Fprintf(&out, "  (%s, %s)%s\n", leanStr(p.name), leanList(p.miss), sep)
 	}
 
-	out.WriteString("]\n\nend Heimdall.Gen.CacheKeys\n")
+	out.WriteString("]\n\n")
+
+	// every user of the request cache has to be one of the functions the obligations talk about
+	known := map[string]bool{
+		"internal/httpcache/round_tripper.go:RoundTripper.cachedResponse": true,
+		"internal/httpcache/round_tripper.go:RoundTripper.cacheResponse":  true,
+	}
+	for _, t := range pathTargets {
+		known[t.file+":"+t.recv+"."+t.fn] = true
+	}
+
+	var sites []string
+
+	guarded(func() { sites = cacheSites(*root) })
+
+	for _, site := range sites {
+		if !known[site] {
+			guarded(func() { fail(nil, "unlisted user of the request cache: %s", site) })
+		}
+	}
+
+	fmt.Fprintf(&out, "/-- functions using the cache of the request context (all of them are covered above) -/\ndef cacheSites : List String := %s\n", func() string {
+		q := make([]string, len(sites))
+		for i, s := range sites {
+			q[i] = leanStr(s)
+		}
+
+		return "[" + strings.Join(q, ", ") + "]"
+	}())
+	out.WriteString("\nend Heimdall.Gen.CacheKeys\n")
 	fmt.Print(out.String())
+
+	// the module is complete (what was not understood is in it as something no obligation accepts); the exit code
+	// tells that the tie is broken
+	if len(failures) != 0 {
+		os.Exit(3)
+	}
 }
